@@ -641,3 +641,65 @@ func ruleFLUSHBOUND(c *Ctx) {
 		c.add(rule, "count:", token.NoPos, CountDropped, true, "only %d flush stop tests found (tm, js, json, test confirmed by hand)", n)
 	}
 }
+
+// LOOPCARRY(deep-lookahead): an lalr(k) decision reads up to k-1 further tokens from a scratch
+// copy of the lexer (or token stream): `c := lexer.Copy(); for action < -2 { tok := next(&c); … }`.
+// The copy carries the position from one iteration to the next, so it must be made outside the
+// loop that consumes from it; made inside, every iteration starts at the real lexer position
+// again and the third lookahead token is the second one once more.
+func ruleDEEPLACOPY(c *Ctx) {
+	const rule = "LOOPCARRY(deep-lookahead)"
+	n := 0
+	for _, rel := range parserPkgs {
+		for _, f := range c.SrcFuncs(rel) {
+			loops := naturalLoops(f)
+			ord := map[string]int{}
+			for _, b := range f.Blocks {
+				for _, ins := range b.Instrs {
+					call, ok := ins.(*ssa.Call)
+					if !ok {
+						continue
+					}
+					g := call.Call.StaticCallee()
+					if g == nil || g.Name() != "Copy" || g.Signature.Recv() == nil {
+						continue
+					}
+					// where does the copy live, and where is it consumed in a loop?
+					var cell *ssa.Alloc
+					if call.Referrers() != nil {
+						for _, r := range *call.Referrers() {
+							if st, ok := r.(*ssa.Store); ok {
+								if al, ok := st.Addr.(*ssa.Alloc); ok {
+									cell = al
+								}
+							}
+						}
+					}
+					if cell == nil || cell.Referrers() == nil {
+						continue
+					}
+					for _, r := range *cell.Referrers() {
+						use, ok := r.(*ssa.Call)
+						if !ok || use == call {
+							continue
+						}
+						ul := innermostLoop(loops, use.Block())
+						if ul == nil {
+							continue
+						}
+						n++
+						key := ordKey(ord, ssaFuncKey(f)+":"+cell.Comment)
+						if ul.Body[b] {
+							c.Bad(rule, key, call.Pos(), "the scratch copy %s is made inside the loop that reads further lookahead tokens from it: each iteration restarts at the parser's real position, so a decision that needs a third token sees the second one again", cell.Comment)
+						} else {
+							c.Ok(rule, key, call.Pos(), "the scratch copy %s is made before the loop that reads further lookahead tokens from it", cell.Comment)
+						}
+					}
+				}
+			}
+		}
+	}
+	if n < 2 {
+		c.add(rule, "count:", token.NoPos, CountDropped, true, "only %d deep-lookahead copies found (parse and lookahead of the lalr(2) test parser confirmed by hand)", n)
+	}
+}
